@@ -1,11 +1,298 @@
-//! C13 — check not built yet.
-use mc_core::Args;
-use serde_json::Value;
+//! C13 — PCZT encoding, combination and roles preserve the transaction.
+//!
+//! Subjects: PCZTs built by the real `Builder::build_for_pczt` + `Creator::build_from_parts` for four
+//! shapes (transparent->Orchard v5, Sapling->Orchard v5, Orchard->Ironwood v6, all pools v6), taken
+//! through IoFinalizer / Updater / Signer / SpendFinalizer (and the real Prover in the thorough tier),
+//! plus the firmware v1 vector of the repository's tests.
+//!
+//! Field lattice: `v2::Pczt` is serialised into a self-describing tree (c13/tree.rs); every filled
+//! `Option` and every map entry is an *atom*. A copy `Q_S` keeps the atoms in `S`, is re-encoded with
+//! the postcard rules and parsed by the real `Pczt::parse`. Enumerated: all singletons, all pairs, all
+//! ordered pairs of subsets of a reduced set, every permutation and grouping of 3 and 4 copies, every
+//! struct field altered in one copy (conflict), every pair of `tx_modifiable` flag bytes.
+//!
+//! Roles: explicit-state search over *all orders* of the role multiset of each shape, with state
+//! matching on the (signature-blinded) canonical encoding; after every role application the effects
+//! identity (three opinions) must be what it was before any role ran.
 
-pub fn replay(_kind: &str, _case: &Value) -> Result<(), String> {
-    Err("C13: check not built".into())
+mod lattice;
+mod ref244;
+mod roles;
+mod shapes;
+mod tree;
+
+use mc_core::{catch, Args, Run};
+use pczt::Pczt;
+use rayon::prelude::*;
+use serde_json::{json, Value};
+use tree::T;
+use zcash_primitives::transaction::txid::{to_txid, TxIdDigester};
+
+/// Canonical form of a PCZT: the tree and bytes of its explicit v2 encoding.
+pub fn canon(p: &Pczt) -> Result<(T, Vec<u8>), String> {
+    let v2 = pczt::v2::Pczt::try_from(p.clone()).map_err(|e| format!("v2 encoding failed: {e:?}"))?;
+    let t = tree::to_tree(&v2)?;
+    Ok((t, v2.serialize()))
 }
 
-pub fn run(_args: &Args) -> i32 {
-    mc_core::machinery_error("C13: check not built")
+pub fn canon_bytes(p: &Pczt) -> Result<Vec<u8>, String> {
+    pczt::v2::Pczt::try_from(p.clone()).map(|v| v.serialize()).map_err(|e| format!("v2 encoding failed: {e:?}"))
+}
+
+/// Encode a tree with the postcard rules and parse it with the real parser; the parsed value must
+/// denote exactly the tree (its own v2 encoding is byte-identical).
+pub fn parse_tree(t: &T) -> Result<Pczt, String> {
+    let bytes = tree::pczt_bytes(2, t);
+    let p = Pczt::parse(&bytes).map_err(|e| format!("parse: {e:?}"))?;
+    // postcard is not self-describing: equal bytes do not prove the parser read the fields the
+    // tree names, equal trees do.
+    let (back, back_bytes) = canon(&p)?;
+    if let Some(at) = tree::first_difference(t, &back) {
+        return Err(format!("parsed value is not the value the tree denotes (differs at {at})"));
+    }
+    if back_bytes != bytes {
+        return Err("parsed value re-encodes differently".into());
+    }
+    Ok(p)
+}
+
+/// The effects identity of a PCZT, three ways. `Ok(None)`: the PCZT's own path cannot compute it.
+/// `Err`: the opinions disagree.
+pub fn identity(p: &Pczt) -> Result<Option<[u8; 32]>, String> {
+    let own = p.clone().into_effects().map(|tx| {
+        let d = tx.digest(TxIdDigester);
+        *to_txid(tx.version(), tx.consensus_branch_id(), &d).as_ref()
+    });
+    let mig = zcash_pool_migration::pczt_txid::pczt_txid(p).map(|t| *t.as_ref());
+    let stored = p.clone().serialize().map_err(|e| format!("serialize: {e:?}")).and_then(|b| zcash_pool_migration::pczt_txid::stored_pczt_txid(&b).map(|t| *t.as_ref()).map_err(|e| format!("{e:?}")));
+    let reference = {
+        let mut r = p.clone();
+        r.resolve_fields().map_err(|e| format!("resolve_fields: {e:?}")).and_then(|_| canon(&r)).and_then(|(t, _)| ref244::txid(&t))
+    };
+    match (&own, &mig, &stored) {
+        (Ok(a), Ok(b), Ok(c)) => {
+            if a != b || a != c {
+                return Err(format!("identity opinions differ: into_effects={} pczt_txid={} stored_pczt_txid={}", hex::encode(a), hex::encode(b), hex::encode(c)));
+            }
+            match reference {
+                Ok(r) if r == *a => Ok(Some(*a)),
+                Ok(r) => Err(format!("reference digest of the PCZT fields {} differs from into_effects txid {}", hex::encode(r), hex::encode(a))),
+                Err(e) => Err(format!("into_effects yields txid {} but the reference cannot be computed from the fields: {e}", hex::encode(a))),
+            }
+        }
+        (Err(_), Err(_), Err(_)) => Ok(None),
+        _ => Err(format!(
+            "identity computable on some paths only: into_effects={} pczt_txid={} stored_pczt_txid={}",
+            own.as_ref().map(hex::encode).map_err(|e| format!("{e:?}")).unwrap_or_else(|e| e),
+            mig.as_ref().map(hex::encode).map_err(|e| format!("{e:?}")).unwrap_or_else(|e| e),
+            stored.as_ref().map(hex::encode).unwrap_or_else(|e| e.clone()),
+        )),
+    }
+}
+
+pub fn hex_vector() -> Vec<u8> {
+    let src = include_str!("/repo/pczt/tests/firmware_compat.rs");
+    let at = src.find("const FIRMWARE_V1_VECTOR").expect("firmware vector constant");
+    let rest = &src[at..];
+    let q0 = rest.find('"').expect("opening quote");
+    let q1 = rest[q0 + 1..].find('"').expect("closing quote");
+    hex::decode(&rest[q0 + 1..q0 + 1 + q1]).expect("hex")
+}
+
+pub fn replay(kind: &str, case: &Value) -> Result<(), String> {
+    match kind {
+        "lattice" => lattice::replay(case),
+        "roles" => roles::replay(case),
+        "firmware" => firmware().map(|_| ()),
+        "subject" => match catch(|| lattice::Subjects::build(case["shape"].as_str().unwrap_or(""))) {
+            Ok(Ok(_)) => Ok(()),
+            Ok(Err(m)) => Err(m),
+            Err(p) => Err(format!("panic: {p}")),
+        },
+        _ => Err(format!("unknown kind {kind}")),
+    }
+}
+
+/// The firmware v1 vector parses, re-serialises identically through every path, and is stable.
+fn firmware() -> Result<&'static str, String> {
+    let r = catch(|| -> Result<&'static str, String> {
+        let bytes = hex_vector();
+        if bytes.get(4..8) != Some(&1u32.to_le_bytes()[..]) {
+            return Err("vector is not a v1 encoding".into());
+        }
+        let p = Pczt::parse(&bytes).map_err(|e| format!("firmware v1 vector no longer parses: {e:?}"))?;
+        let again = p.clone().serialize().map_err(|e| format!("{e:?}"))?;
+        if again != bytes {
+            return Err(format!("serialize() of the parsed firmware vector differs (version byte {})", again.get(4).copied().unwrap_or(0)));
+        }
+        let v1 = pczt::v1::Pczt::try_from(p.clone()).map_err(|e| format!("explicit v1 encoding refused: {e:?}"))?.serialize();
+        if v1 != bytes {
+            return Err("explicit v1 encoding differs from the vector".into());
+        }
+        let v2 = canon_bytes(&p)?;
+        let p2 = Pczt::parse(&v2).map_err(|e| format!("v2 encoding of the vector does not parse: {e:?}"))?;
+        if p2.serialize().map_err(|e| format!("{e:?}"))? != bytes {
+            return Err("v1 -> v2 -> default serialize() does not return to the v1 bytes".into());
+        }
+        Ok("ok")
+    });
+    match r {
+        Ok(x) => x,
+        Err(p) => Err(format!("panic: {p}")),
+    }
+}
+
+pub fn run(args: &Args) -> i32 {
+    let run = Run::new(args, "model_checking");
+    run.set_rule(
+        "subjects: 4 builder-made PCZT shapes (at creation and at their maximal filled state, plus a saturated variant in which every \
+         optional field and map carries a value) and the firmware v1 vector; field lattice = every filled Option and every map entry of the \
+         v2 encoding tree; cases: every copy (encoding round trip + version choice), every singleton and pair of atoms, every ordered pair \
+         of subsets of a reduced set (one atom per struct kind), every permutation x grouping of 3 and 4 copies, every struct field altered \
+         in one copy (conflict), every pair of tx_modifiable flag bytes over the documented bit alphabet; roles: every order of the role \
+         multiset of each shape as an explicit-state search (state = remaining roles + signature-blinded canonical bytes). A case is \
+         distinct by (subject, check, atom/field set or role history).",
+    );
+    run.assume("copies that differ in an atom whose removal changes the reference txid (fallback_lock_time, sequence, lock-time requirements, v5 anchors, whole bundles) do not describe the same transaction: combine may refuse them or merge them, but must not panic and, if it merges, must keep the field");
+    run.assume("tx_modifiable is documented as a bitfield merged bit by bit; its oracle is the documented per-bit rule, not equality");
+    run.assume("a role application that returns an error leaves the party's input PCZT unchanged; the role is then spent");
+    run.assume("parse(serialize(p)) is compared on the canonical v2 encoding, modulo the documented placeholder anchor of an otherwise empty shielded bundle");
+    run.assume("the Redactor role is driven only over non-effecting fields, and never over the inputs (values, rcv, output recipient/rseed) of a field it has compacted away");
+    run.assume("orchard, sapling-crypto, secp256k1 and BLAKE2b are trusted; randomised signatures and proofs are blinded in state keys only");
+
+    match firmware() {
+        Ok(o) => run.outcome(&format!("firmware:{o}")),
+        Err(m) => run.fail("firmware", "firmware-v1-vector".into(), m, json!({})),
+    }
+    run.eval(b"firmware-v1-vector");
+
+    // (1) subjects
+    let t0 = std::time::Instant::now();
+    let built: Vec<(String, Result<lattice::Subjects, String>)> =
+        shapes::SHAPES.par_iter().map(|n| (n.to_string(), catch(|| lattice::Subjects::build(n)).unwrap_or_else(|p| Err(format!("panic: {p}"))))).collect();
+    let mut subjects = vec![];
+    for (n, s) in built {
+        match s {
+            Ok(s) => subjects.push(s),
+            Err(m) if m.starts_with("identity: ") => run.fail("subject", format!("{n}:identity-as-created"), m, json!({"shape": n})),
+            Err(m) => mc_core::machinery_error(&format!("C13: cannot build subject {n}: {m}")),
+        }
+        run.eval(format!("subject:{n}").as_bytes());
+    }
+    run.section("subject_build_s", json!(t0.elapsed().as_secs_f64()));
+
+    // (2)+(3) lattice and encoding
+    let t1 = std::time::Instant::now();
+    lattice::explore(&run, args, &subjects);
+    run.section("lattice_s", json!(t1.elapsed().as_secs_f64()));
+    // (4) roles
+    let t2 = std::time::Instant::now();
+    roles::explore(&run, args, &subjects);
+    run.section("roles_s", json!(t2.elapsed().as_secs_f64()));
+
+    run.require(run.outcomes_distinct() >= 12 || run.failure_count() > 0, "fewer than 12 distinct outcome classes observed");
+    run.finish(&replay)
+}
+
+// ---------------------------------------------------------------------------------------------
+// (3) Encoding: round trip and choice of the encoding version.
+
+fn is_zero_anchor(bundle: &T) -> bool {
+    bundle.field("anchor").and_then(|a| a.some()).and_then(|a| a.bytes()).map(|b| b.iter().all(|x| *x == 0)).unwrap_or(false)
+}
+
+/// Documented equivalence: an otherwise empty shielded bundle (no Sapling spends / no Orchard
+/// actions) may carry the all-zero placeholder anchor in place of an absent one.
+pub fn normalize(t: &T) -> T {
+    let mut t = t.clone();
+    for (name, list) in [("sapling", "spends"), ("orchard", "actions"), ("ironwood", "actions")] {
+        let path = [tree::Step::Field(name), tree::Step::Inner];
+        if let Some(b) = t.get_mut(&path) {
+            let empty = b.field(list).map(|l| l.items().is_empty()).unwrap_or(false);
+            if empty && is_zero_anchor(b) {
+                if let Some(a) = b.get_mut(&[tree::Step::Field("anchor")]) {
+                    *a = T::None;
+                }
+            }
+        }
+    }
+    t
+}
+
+/// "The older encoding whenever it can represent the content", as a predicate on the fields, from
+/// the documentation in pczt/src/lib.rs and the v1 modules: the v1 encoding predates the v6
+/// transaction format and the Ironwood bundle, carries only V2 note plaintexts, always carries an
+/// anchor (a placeholder is possible only where nothing is spent), and has no room for the derived
+/// forms of cv_net / cmx / enc_ciphertext.
+pub fn v1_representable(t: &T) -> bool {
+    let g = match t.field("global") {
+        Some(g) => g,
+        None => return false,
+    };
+    if g.field("tx_version").and_then(|v| v.as_u64()) == Some(6) {
+        return false;
+    }
+    if t.field("ironwood").map(|i| i.some().is_some()).unwrap_or(true) {
+        return false;
+    }
+    if let Some(s) = t.field("sapling").and_then(|s| s.some()) {
+        let spends_empty = s.field("spends").map(|l| l.items().is_empty()).unwrap_or(false);
+        if s.field("anchor").and_then(|a| a.some()).is_none() && !spends_empty {
+            return false;
+        }
+    }
+    if let Some(o) = t.field("orchard").and_then(|s| s.some()) {
+        if !matches!(o.field("note_version"), Some(T::Variant(0, _, _))) {
+            return false;
+        }
+        let actions = o.field("actions").map(|l| l.items()).unwrap_or(&[]);
+        if o.field("anchor").and_then(|a| a.some()).is_none() && !actions.is_empty() {
+            return false;
+        }
+        for a in actions {
+            let out = a.field("output");
+            if a.field("cv_net").and_then(|x| x.some()).is_none()
+                || out.and_then(|o| o.field("cmx")).and_then(|x| x.some()).is_none()
+                || !matches!(out.and_then(|o| o.field("enc_ciphertext")), Some(T::Variant(0, _, _)))
+            {
+                return false;
+            }
+        }
+    }
+    true
+}
+
+pub fn encoding_check(p: &Pczt) -> Result<&'static str, String> {
+    let (t, cb) = canon(p)?;
+    let want_v1 = v1_representable(&t);
+    let b = p.clone().serialize().map_err(|e| format!("serialize failed: {e:?}"))?;
+    let ver = u32::from_le_bytes(b.get(4..8).ok_or("short encoding")?.try_into().map_err(|_| "short encoding")?);
+    if want_v1 != (ver == 1) {
+        return Err(format!("serialize() chose encoding v{ver} but the content is{} representable in v1", if want_v1 { "" } else { " not" }));
+    }
+    match (pczt::v1::Pczt::try_from(p.clone()), want_v1) {
+        (Ok(x), true) => {
+            if x.serialize() != b {
+                return Err("explicit v1 encoding differs from serialize()".into());
+            }
+        }
+        (Err(_), false) => {}
+        (Ok(_), false) => return Err("v1::Pczt::try_from accepts content the v1 encoding cannot represent".into()),
+        (Err(e), true) => return Err(format!("v1::Pczt::try_from refuses v1-representable content: {e:?}")),
+    }
+    let p2 = Pczt::parse(&b).map_err(|e| format!("parse(serialize(p)) failed: {e:?}"))?;
+    let (t2, _) = canon(&p2)?;
+    if normalize(&t2) != normalize(&t) {
+        let diff = tree::first_difference(&normalize(&t), &normalize(&t2)).unwrap_or_default();
+        return Err(format!("parse(serialize(p)) differs from p at {diff} (encoding v{ver})"));
+    }
+    let b2 = p2.serialize().map_err(|e| format!("re-serialize failed: {e:?}"))?;
+    if b2 != b {
+        return Err("serialize(parse(serialize(p))) is not stable".into());
+    }
+    let p3 = Pczt::parse(&cb).map_err(|e| format!("parse of the explicit v2 encoding failed: {e:?}"))?;
+    if canon_bytes(&p3)? != cb {
+        return Err("explicit v2 encoding does not round-trip".into());
+    }
+    Ok(if ver == 1 { "v1" } else { "v2" })
 }
